@@ -61,6 +61,12 @@ def cases(tier, seed):
                     inputs = "storage" if (k + e) % 4 == 1 else "passed"
                     out.append(dict(seed=seed, i=e, env=env, estimator=est, gate=gate, args=args, inputs=inputs))
                     k += 1
+    # the same specification through the command line entry point (elexmodel.cli driven in-process by click's test
+    # runner): no --save_output option at all is "no options", each --save_output value names one thing to persist
+    for e in range(n_el):
+        for env, est, gate in (("prod", "nonparametric", "pass"), ("prod", "bootstrap", "pass"),
+                               ("prod", "gaussian", "fail"), ("local", "nonparametric", "pass")):
+            out.append(dict(seed=seed, i=e, env=env, estimator=est, gate=gate, args="copied", inputs="cli"))
     if tier == "quick":  # make sure the gaussian / non-local / gate-passes child exists in every argument mode
         for args in ARG_MODES:
             if not any(s_["estimator"] == "gaussian" and s_["env"] == "prod" and s_["gate"] == "pass" and s_["args"] == args
@@ -276,6 +282,14 @@ def child(spec):
             import io
 
             key = kw.get("Key")
+            if spec.get("inputs") == "cli":
+                if key.endswith(f"/config/{el.election_id}.json"):
+                    return {"Body": io.BytesIO(json.dumps(el.config).encode()), "LastModified": datetime.datetime(2030, 1, 1)}
+                if key.endswith(f"/data/{el.office}/data_{el.geo_type}.csv"):
+                    full = el.pre.merge(el.truth.rename(columns={c: f"results_{c}" for c in ("turnout", "dem", "gop")}),
+                                        on="geographic_unit_fips", how="left")
+                    return {"Body": io.BytesIO(full.to_csv(index=False).encode()),
+                            "LastModified": datetime.datetime(2030, 1, 1)}
             if spec.get("inputs") == "storage":
                 log["gets"] = log.get("gets", 0) + 1
                 if key.endswith(f"/config/{el.election_id}.json"):
@@ -295,6 +309,8 @@ def child(spec):
     if est == "bootstrap":
         o["B"] = 10
         o["lambda_"] = 1.0
+    if spec.get("inputs") == "cli":  # the mock live feed of the command line is cut from a file with dem / gop / turnout
+        o.update(allow_pointer_config=False, extra_state_rows=False, rare_options=False)
     el, feed, status, call = cases_mod.build(spec["seed"], PROPERTY, 1000 * spec["i"] + 1, o)
     call["model_parameters"].pop("unit_blocklist", None)
     # make the gate outcome deterministic: exactly 3 baseline units at 100 % (fail) / at least 45 (pass)
@@ -344,12 +360,39 @@ def child(spec):
                       geo_type=el.geo_type, cwd=cwd, tables=[], n_agg=len([a for a in c2["aggregates"] if a != "unit"]))
             log["active"] = True
             try:
+                if spec.get("inputs") == "cli":
+                    from click.testing import CliRunner
+
+                    from elexmodel.cli import cli as cli_main
+
+                    argv = [el.election_id, "--office_id", el.office, "--geographic_unit_type", el.geo_type,
+                            "--pi_method", est, "--percent_reporting", "80" if spec["gate"] == "pass" else "3",
+                            "--aggregates", "postal_code", "--aggregates", "unit",
+                            "--model_parameters", repr(c2["model_parameters"])]
+                    for e_ in c2["estimands"]:
+                        argv += ["--estimands", e_]
+                    for a_ in c2["prediction_intervals"]:
+                        argv += ["--prediction_intervals", str(a_)]
+                    for f_ in c2["features"]:
+                        argv += ["--features", f_]
+                    for o_ in so:  # nothing at all when the subset is empty
+                        argv += ["--save_output", o_]
+                    if summary:
+                        argv += ["--national_summary"]
+                    r_ = CliRunner().invoke(cli_main, argv, catch_exceptions=True)
+                    exc = r_.exception if not isinstance(r_.exception, SystemExit) or r_.exit_code != 0 else None
+                    res = {k: None for k in ["state_data", "unit_data"] + (["nat_sum_data"] if summary else [])}
+                    tr["t_outcome"] = tick()
+                    tr["cli"] = True
+                    raise _Done()
                 res, exc = harness.run_estimates(el, feed, c2, client=client, shared_model_parameters=shared_mp,
                                                  inputs_from_storage=(spec.get("inputs") == "storage"))
                 tr["t_outcome"] = tick()
                 if exc is None and summary:
                     client.get_national_summary_votes_estimates(None, 0, c2["prediction_intervals"])
                     res = client.results_handler.final_results
+            except _Done:
+                pass
             except Exception as e:  # noqa: BLE001
                 exc = e
             finally:
@@ -370,6 +413,10 @@ def child(spec):
     sys.stdout.write("\n" + json.dumps(traces) + "\n")
     sys.stdout.flush()
     os._exit(0)
+
+
+class _Done(Exception):
+    pass
 
 
 if __name__ == "__main__":
